@@ -170,6 +170,9 @@ class C24(Property):
                     else:
                         rres = task.result()
                         cmds = list(holder["conn"].commands)
+                    if not self.op_quoted(op["op"]) and not is_safe(os.path.join(rroot, op["path"])):
+                        # an unquoted `&` starts a background job, `;` a second command: let their effects land before looking
+                        await aio.sleep(0.7)
                     ls, rs = snapshot(lroot), snapshot(rroot)
                     results.append((op, lres, rres, cmds, ls, rs, pre))
                     pre = ls
